@@ -79,7 +79,15 @@ def r1b(cx):
     dup2 = Q.calls_with_arg_named(body, ['*::Dup::dup2'], 'writer', du)
     run = Q.find_calls(body, ['*::read_eval_loop'])
     cx.require(run, 'read_eval_loop not called in subshell_body')
-    cx.require(close_r and close_w and dup2, 'pipe arrangement calls not found in subshell_body')
+    cx.require(dup2, 'pipe arrangement calls not found in subshell_body')
+    # the dup2 is here, so the arrangement is made in this body: a close that is gone is a violation, not a moved anchor
+    if not close_r:
+        cx.violation(body.root, 'reader-never-closed', 'the child never closes the read end of its own output pipe', loc=body.loc(dup2[0][1]))
+    if not close_w:
+        cx.violation(body.root, 'writer-never-closed', 'after dup2(writer, STDOUT) the original write end is never closed: the command '
+                     '(and whatever it starts) inherits a second descriptor for the pipe', loc=body.loc(dup2[0][1]))
+    if not close_r or not close_w:
+        return
     for b, t in close_r + dup2 + close_w + run:
         cx.site('%s: %s at %s' % (body.fn, pp.callee(t).split('::')[-1], body.loc(t)))
     _report_undominated(cx, body, close_r, run, 'run-before-close-reader',
